@@ -82,6 +82,9 @@ def nested_select_over_package(t):
 def run(prop, tier):
     rep = common.Report(prop, tier)
     plan = PLANS[prop][tier]
+    # design level: the specification's own rewriting system (spec/Simplify.tla), model-checked by TLC
+    import design_simplify
+    design_simplify.run(prop, tier, rep)
     jobs = []
     fam_counts = {}
     next_id = 0
